@@ -534,6 +534,10 @@ func (P *Program) genVC(con *Contract) (*FuncResult, *VC) {
 	for _, r := range con.ObjInv {
 		vc.assume(env.evalBool(r.E))
 	}
+	for i, r := range con.EntryAssumes {
+		vc.assume(env.evalBool(r.E))
+		vc.used["ENTRY-ASSUMPTION:"+con.Key+"["+clauseName(r, i)+"] "+r.Src] = true
+	}
 	nReq := len(vc.asserts)
 	f.run(args, fvs, st, "true")
 	res, est, er := f.exit()
